@@ -183,6 +183,8 @@ where
 
 // contraction catalogue for Steffensen (plain fn pointers are required by the API)
 thread_local! { static STEFF_CALLS: RefCell<usize> = const { RefCell::new(0) }; }
+// the first evaluations of the map (argument, value), for the design-level trace
+thread_local! { static STEFF_LOG: RefCell<Vec<(f64, f64)>> = const { RefCell::new(Vec::new()) }; }
 fn bump() {
     STEFF_CALLS.with(|c| {
         *c.borrow_mut() += 1;
@@ -191,18 +193,27 @@ fn bump() {
         }
     });
 }
-fn g_cos(x: f64) -> f64 { bump(); x.cos() }
-fn g_expm(x: f64) -> f64 { bump(); (-x).exp() }
-fn g_heron(x: f64) -> f64 { bump(); 0.5 * (x + 2.0 / x) }
-fn g_sinhalf(x: f64) -> f64 { bump(); 1.0 + 0.5 * x.sin() }
-fn g_affine(x: f64) -> f64 { bump(); 0.25 * x + 3.0 }
-fn g_quad(x: f64) -> f64 { bump(); (x * x + 1.0) / 3.0 }
-fn g_atan(x: f64) -> f64 { bump(); 1.0 + 0.5 * x.atan() }
-fn g_logshift(x: f64) -> f64 { bump(); (x + 2.0).ln() }
-fn g_sin09(x: f64) -> f64 { bump(); 0.9 * x.sin() + 0.3 }
+fn logged(x: f64, y: f64) -> f64 {
+    STEFF_LOG.with(|l| {
+        let mut l = l.borrow_mut();
+        if l.len() < 1000 {
+            l.push((x, y));
+        }
+    });
+    y
+}
+fn g_cos(x: f64) -> f64 { bump(); logged(x, x.cos()) }
+fn g_expm(x: f64) -> f64 { bump(); logged(x, (-x).exp()) }
+fn g_heron(x: f64) -> f64 { bump(); logged(x, 0.5 * (x + 2.0 / x)) }
+fn g_sinhalf(x: f64) -> f64 { bump(); logged(x, 1.0 + 0.5 * x.sin()) }
+fn g_affine(x: f64) -> f64 { bump(); logged(x, 0.25 * x + 3.0) }
+fn g_quad(x: f64) -> f64 { bump(); logged(x, (x * x + 1.0) / 3.0) }
+fn g_atan(x: f64) -> f64 { bump(); logged(x, 1.0 + 0.5 * x.atan()) }
+fn g_logshift(x: f64) -> f64 { bump(); logged(x, (x + 2.0).ln()) }
+fn g_sin09(x: f64) -> f64 { bump(); logged(x, 0.9 * x.sin() + 0.3) }
 // affine map with the case's own slope and intercept (the API takes a plain fn pointer)
 thread_local! { static AFFP: RefCell<(f64, f64)> = const { RefCell::new((0.0, 0.0)) }; }
-fn g_affp(x: f64) -> f64 { bump(); let (s, c) = AFFP.with(|p| *p.borrow()); s * x + c }
+fn g_affp(x: f64) -> f64 { bump(); let (s, c) = AFFP.with(|p| *p.borrow()); logged(x, s * x + c) }
 
 fn run_steffensen(case: &Value) -> Value {
     let g: fn(f64) -> f64 = match case["g"].as_str().unwrap() {
@@ -223,12 +234,14 @@ fn run_steffensen(case: &Value) -> Value {
         k => panic!("unknown map {k}"),
     };
     STEFF_CALLS.with(|c| *c.borrow_mut() = 0);
+    STEFF_LOG.with(|l| l.borrow_mut().clear());
     let start = jf(&case["start"][0]);
     let tol = jf(&case["tol"]);
     let nmax = ji(&case["n_max"]) as usize;
     let r = std::panic::catch_unwind(|| roots::steffensen(start, g, tol, nmax));
     let calls = STEFF_CALLS.with(|c| *c.borrow());
     let mut o = json!({"nf": calls, "nj": 0, "x": fvj(&[0.0])});
+    o["gevals"] = STEFF_LOG.with(|l| Value::Array(l.borrow().iter().map(|(x, y)| json!([fj(*x), fj(*y)])).collect()));
     match r {
         Ok(Ok(x)) => {
             o["ret"] = json!("ok");
